@@ -110,6 +110,7 @@ def handle (prop : String) (line : String) : String :=
       | "wasm" => opWasm args res
       | "hist" => opHist args res
       | "after" => opAfter args res
+      | "reuse" => opReuse args res
       | "file" => opFile args res
       | "pix" => opPix args res
       | "pixframe" => opPixFrame args res
